@@ -1,11 +1,13 @@
 import Flowjaxv.Proofs.Train
+import Flowjaxv.Proofs.TrainGen
 /-!
 # C15 — fit_to_data never loses, duplicates or misaligns data
 
-Property theorems only (lemmas in `Proofs/Train.lean`).  The statements are about the hand-written
-model `Model/Train.lean` (`fitData`, `trainValSplit`, `addBatch`, `epochLoop`, key paths), tied to
+Property theorems only (lemmas in `Proofs/Train.lean`, `Proofs/TrainGen.lean`).  The first part is about the
+hand-written model `Model/Train.lean` (`fitData`, `trainValSplit`, `addBatch`, `epochLoop`, key paths), tied to
 the real `fit_to_data` call by call (rows of every array, key, train-step vs validation, order) by
-`tools/props/c15.py`.
+`tools/props/c15.py`; the second part ("The second tie") proves the functions and loops REGENERATED from the
+source (`Gen/TrainGen.lean`) equal to that model and restates the claims on them.
 
 Reading guide.  `perm p m` stands for `jr.permutation(key at path p, m)`; the only thing assumed about
 it is that it returns a permutation of `0..m-1` (`Valid.hperm`).  Data rows are identified with their
@@ -223,5 +225,144 @@ theorem valid_instance :
         (fun ep => (ep.trainCalls.map (·.rows), ep.valCalls.map (·.rows))) =
       [([[2, 3], [4, 5]], [[0, 1]])] := by
   refine ⟨⟨fun _ m => List.reverse_perm _, by omega, by omega, by omega⟩, by decide, by decide, by decide⟩
+
+/-! ## The second tie: the data flow REGENERATED from the source
+
+`Gen/TrainGen.lean` (made by `tools/py2lean/py2loop.py` from `train_utils.py` and `data_fit.py` on every run) contains
+`_add_batch`, `get_batches`, `train_val_split` and the three loops of `fit_to_data` as Lean functions over the library
+primitives of `Model/TrainWorld.lean`.  The theorems below (lemmas in `Proofs/TrainGen.lean`) prove them equal to the hand model
+above for EVERY world `W` (permutation per key, loss function, optimiser), batch size, data — so `split_partition`,
+`epoch_no_duplicates`, `epoch_drops_only_tail`, `val_never_in_step`, `batches_shape`, `keys_fresh`, `run_deterministic` are
+theorems about the code as it is now — and restate the main claims on the generated run.
+
+`TrainGen.genRun W dist x condition vp b i E` is the `Train.Run` read off the generated `fit_to_data` for array `i` of `data`
+(`0` = `x`, `1` = `condition`): its calls are the `(key, rows)` the generated loops hand to `step` / `loss_fn`. -/
+section Generated
+open TrainGen
+variable {α π ω γ υ : Type} (W : World α π ω γ υ)
+
+/-- the generated `_add_batch` (`min`, `//`, slice, reshape over Python ints) and `get_batches` are the hand model's for every
+array and batch size; `_add_batch` raises (`ZeroDivisionError`) exactly when `min(batch_size, len) = 0` -/
+theorem gen_add_batch_eq (a : List α) (as : List (List α)) (b : Nat) :
+    GenTrain.addBatch a (b : Int) = addBatch b a ∧
+    (GenTrain.addBatch_raises a (b : Int) = true ↔ min b a.length = 0) ∧
+    GenTrain.getBatches as (b : Int) = as.map (addBatch b) :=
+  ⟨addBatch_eq a b, addBatch_raises_iff a b, getBatches_eq as b⟩
+
+/-- the generated `train_val_split` on arrays with `n` rows, when `round(val_prop * n) = r ≤ n` (Python `round`: half to even
+on the float product): every array is split as the hand model does with `nVal = r` and the permutation drawn for `key` — the
+SAME permutation for every array; and for a valid permutation the parts have `n − r` and `r` rows and partition the array. -/
+theorem gen_split_sizes_eq (key : Path) (as : List (List α)) (vp : Float) (n r : Nat)
+    (hne : as ≠ []) (hlen : ∀ a ∈ as, a.length = n) (hr : Py.round (Py.fmul vp (n : Int)) = (r : Int)) (hrn : r ≤ n) :
+    GenTrain.trainValSplit W key as vp =
+      (as.map (fun a => (trainValSplit (W.perm key n) r a).1), as.map (fun a => (trainValSplit (W.perm key n) r a).2)) ∧
+    ((W.perm key n).Perm (List.range n) → ∀ a ∈ as,
+      (trainValSplit (W.perm key n) r a).1.length = n - r ∧ (trainValSplit (W.perm key n) r a).2.length = r ∧
+      ((trainValSplit (W.perm key n) r a).1 ++ (trainValSplit (W.perm key n) r a).2).Perm a) := by
+  refine ⟨trainValSplit_eq W key as vp n r hne hlen hr hrn, fun hp a ha => ?_⟩
+  have hl := hlen a ha
+  obtain ⟨h1, h2, h3⟩ := trainValSplit_spec (π₀ := W.perm key n) (a := a) r (by rw [hl]; exact hp) (by rw [hl]; exact hrn)
+  rw [hl] at h2
+  exact ⟨h2, h3, h1⟩
+
+/-- **One generated epoch** (`GenTrain.fitToData_loop1` on an unbroken loop state), data part: the key, parameters, optimiser
+state and data it leaves are `TrainGen.dataNext` — `key, *subkeys = jr.split(key, 3)`; both data sets permuted array by array
+with `subkeys[0]` / `subkeys[1]`; one `key, subkey = jr.split(key)` and one `step` per train batch, then one split and one
+plain `loss_fn` call per validation batch, on `zip(*get_batches(…))` (`TrainGen.epochCalls`, built from the hand model's
+`addBatch`, `lossCalls`, `advance`). -/
+theorem gen_fit_epoch_eq (p b : Nat) (s : GenTrain.FitToDataSt1 α π ω) (i : Int) (hs : s.brk = false) :
+    dataOf (GenTrain.fitToData_loop1 W p b () s i) = dataNext W b (dataOf s) ∧
+    (dataNext W b (dataOf s)).train_data = s.train_data.map (Py.permutation W (child s.key 3 1)) ∧
+    (dataNext W b (dataOf s)).val_data = s.val_data.map (Py.permutation W (child s.key 3 2)) ∧
+    (dataNext W b (dataOf s)).params =
+      ((epochCalls W b s.key s.train_data s.val_data).1.foldl (trainFold W) (s.params, s.opt_state, [])).1 ∧
+    (GenTrain.fitToData_loop1 W p b () s i).losses_train = s.losses_train ++
+      [meanLoss W ((epochCalls W b s.key s.train_data s.val_data).1.foldl (trainFold W) (s.params, s.opt_state, [])).2.2] ∧
+    (GenTrain.fitToData_loop1 W p b () s i).losses_val = s.losses_val ++
+      [meanLoss W ((epochCalls W b s.key s.train_data s.val_data).2.map
+        (fun c => W.lossFn (dataNext W b (dataOf s)).params (callArgs c)))] := by
+  rw [loop1_eq W p b s i hs]
+  exact ⟨rfl, rfl, rfl, rfl, rfl, rfl⟩
+
+/-- the generated epoch seen from array `i` of equally long arrays IS one step of the hand model's `epochLoop` on that array:
+same shuffle keys, same orders, same batches with the same call keys, same key afterwards -/
+theorem gen_epoch_dataflow_eq (b n m i : Nat) (d : DataSt α π ω) (hT : ∀ a ∈ d.train_data, a.length = n)
+    (hV : ∀ a ∈ d.val_data, a.length = m) (hiT : i < d.train_data.length) (hiV : i < d.val_data.length) :
+    [genEpochRec W b d i] = epochLoop W.perm b 1 d.key (d.train_data.getD i []) (d.val_data.getD i []) :=
+  (genEpochRec_eq W b n m i d hT hV hiT hiV).1
+
+/-- **Data flow of the generated `fit_to_data`** = the hand model's `fitDataCore`, for `x` and for `condition`, with the same
+permutations (`n` rows, `round(val_prop * n) = r ≤ n`). -/
+theorem gen_fit_dataflow_eq (dist : π) (x : List α) (condition : Option (List α)) (vp : Float) (b i E n r : Nat)
+    (hlen : ∀ a ∈ dataArrays x condition, a.length = n) (hi : i < (dataArrays x condition).length)
+    (hr : Py.round (Py.fmul vp (n : Int)) = (r : Int)) (hrn : r ≤ n) :
+    genRun W dist x condition vp b i E = fitDataCore W.perm r b E ((dataArrays x condition).getD i []) :=
+  genRun_eq W dist x condition vp b i E n r hlen hi hr hrn
+
+/-- early stopping does not change the data flow of the epochs that are run: the generated loop with its `break` ends in the
+(key, parameters, optimiser state, data) reached after `epochs` un-stopped epochs, and the epoch records of `genRun` are those
+of the states `dataAt 0 … dataAt (E−1)` -/
+theorem gen_early_stop_keeps_dataflow (key : Path) (dist : π) (x : List α) (condition : Option (List α)) (maxE p b : Nat) (vp : Float) :
+    dataOf (List.foldl (GenTrain.fitToData_loop1 W (p : Int) (b : Int) ())
+        ⟨child key 2 0, dist, dist, W.optInit dist, (fitData0 W key dist x condition vp).train_data,
+          (fitData0 W key dist x condition vp).val_data, [], [], false⟩ (Py.range (maxE : Int))) =
+      dataAt W b (fitData0 W key dist x condition vp)
+        (fitLoop (trnScript W b (fitData0 W key dist x condition vp)) (valScript W b (fitData0 W key dist x condition vp))
+          p maxE ⟨0, [], [], 0⟩).epochs ∧
+    ∀ i E, genEpochRecs W b i E (fitData0 W key dist x condition vp) =
+      (List.range E).map (fun e => genEpochRec W b (dataAt W b (fitData0 W key dist x condition vp) e) i) :=
+  ⟨fit_final_state W key dist x condition maxE p b vp, fun i E => genEpochRecs_eq_map W b i E _⟩
+
+/-- **Alignment, on the generated run.**  For `x = [xf 0, …, xf (n-1)]` and `condition = [cf 0, …, cf (n-1)]`, the generated run
+seen from `x` and seen from `condition` are the images under `xf` resp. `cf` of ONE index run (`indexRun`): every `step` /
+validation call gets row `xf j` of `x` together with row `cf j` of `condition` for the same indices `j`, with the same key. -/
+theorem gen_rows_aligned (xf cf : Nat → α) (dist : π) (vp : Float) (n r b E : Nat)
+    (hr : Py.round (Py.fmul vp (n : Int)) = (r : Int)) (hrn : r ≤ n) :
+    genRun W dist ((List.range n).map xf) (some ((List.range n).map cf)) vp b 0 E = (indexRun W.perm n r b E).map xf ∧
+    genRun W dist ((List.range n).map xf) (some ((List.range n).map cf)) vp b 1 E = (indexRun W.perm n r b E).map cf ∧
+    genRun W dist ((List.range n).map xf) none vp b 0 E = (indexRun W.perm n r b E).map xf := by
+  have hl2 : ∀ a ∈ dataArrays ((List.range n).map xf) (some ((List.range n).map cf)), a.length = n := by
+    intro a ha
+    simp only [dataArrays, Option.elim, List.mem_cons, List.not_mem_nil, or_false] at ha
+    rcases ha with rfl | rfl <;> simp
+  have hl1 : ∀ a ∈ dataArrays ((List.range n).map xf) none, a.length = n := by
+    intro a ha
+    simp only [dataArrays, Option.elim, List.mem_cons, List.not_mem_nil, or_false] at ha
+    subst ha; simp
+  refine ⟨?_, ?_, ?_⟩
+  · rw [genRun_eq W dist _ _ vp b 0 E n r hl2 (by simp [dataArrays]) hr hrn]
+    exact fitDataCore_map xf W.perm r b E _
+  · rw [genRun_eq W dist _ _ vp b 1 E n r hl2 (by simp [dataArrays]) hr hrn]
+    exact fitDataCore_map cf W.perm r b E _
+  · rw [genRun_eq W dist _ _ vp b 0 E n r hl1 (by simp [dataArrays]) hr hrn]
+    exact fitDataCore_map xf W.perm r b E _
+
+/-- the property's clauses on the generated run of index-tagged rows (`x = [0, …, n-1]`): the generated run IS `indexRun`, hence
+(under `Valid`: permutations valid, both parts non-empty, `batch_size ≥ 1`) train / validation sets partition the data, within
+an epoch no row is used twice and only a trailing remainder smaller than a batch is skipped, validation rows never reach a
+`step`, and every key handed to a consumer is fresh. -/
+theorem gen_run_main (Wn : World Nat π ω γ υ) (dist : π) (vp : Float) (n r b E : Nat)
+    (hr : Py.round (Py.fmul vp (n : Int)) = (r : Int)) (h : Valid Wn.perm n r b) :
+    genRun Wn dist (List.range n) none vp b 0 E = indexRun Wn.perm n r b E ∧
+    ((genRun Wn dist (List.range n) none vp b 0 E).train ++ (genRun Wn dist (List.range n) none vp b 0 E).val).Perm (List.range n) ∧
+    (∀ ep ∈ (genRun Wn dist (List.range n) none vp b 0 E).epochs,
+      (ep.trainCalls.flatMap (·.rows)).Nodup ∧
+      ep.trainCalls.flatMap (·.rows) = ep.trainOrder.take ((n - r) - (n - r) % min b (n - r)) ∧
+      (n - r) % min b (n - r) < min b (n - r) ∧
+      (∀ c ∈ ep.trainCalls, ∀ j ∈ c.rows, j ∈ (genRun Wn dist (List.range n) none vp b 0 E).train ∧
+        j ∉ (genRun Wn dist (List.range n) none vp b 0 E).val)) ∧
+    ((genRun Wn dist (List.range n) none vp b 0 E).consumedKeys.map idx).Nodup := by
+  have hl1 : ∀ a ∈ dataArrays (List.range n) none, a.length = n := by
+    intro a ha
+    simp only [dataArrays, Option.elim, List.mem_cons, List.not_mem_nil, or_false] at ha
+    subst ha; simp
+  have e : genRun Wn dist (List.range n) none vp b 0 E = indexRun Wn.perm n r b E :=
+    genRun_eq Wn dist _ _ vp b 0 E n r hl1 (by simp [dataArrays]) hr (Nat.le_of_lt h.hvn)
+  rw [e]
+  refine ⟨rfl, (split_partition h E).1, fun ep hep => ?_, (keys_fresh Wn.perm r b E (List.range n)).1⟩
+  obtain ⟨⟨_, h2, _, _, h5⟩, _⟩ := epoch_drops_only_tail h E ep hep
+  exact ⟨(epoch_no_duplicates h E ep hep).1, h2, h5, (val_never_in_step h E ep hep).1⟩
+
+end Generated
 
 end C15
